@@ -359,6 +359,23 @@ static void check_rot(const Rot& r) {
 		else if (!product_is_identity<3>("Matrix3.invert", b, a, why)) viol("Matrix3::Invert:product-not-identity", mw + ": M^-1 * M: " + why);
 		if (!within("Matrix3.inverse", max_entry_diff(M.Inverse(), Mi), 0)) viol("Matrix3::Inverse:differs-from-Invert", mw);
 	}
+	// the same uniform factors as the scale of a transform: Matrix4::Inverse of its matrix (determinant f^3)
+	for (float f : {0.01f, 0.04f, 0.1f, 30.0f, 100.0f}) {
+		MatTransform T;
+		T.rotation = r.m;
+		T.scale = f;
+		T.translation = Vector3(1.0f, -2.0f, 0.5f);
+		Matrix4 M = T.ToMatrix(), Mc = M, Mi = Mc.Inverse();
+		const std::string mw = where + vf::strf(", M = ToMatrix(scale %g, translation (1,-2,0.5))", f);
+		st.add("identities_checked", 2);
+		st.add("matrices_inverted");
+		double a[4][4], b[4][4];
+		to_d4(M, a);
+		to_d4(Mi, b);
+		std::string why;
+		if (!product_is_identity<4>("Matrix4.inverse.scaled", a, b, why)) viol("Matrix4::Inverse:scaled-transform:product-not-identity", mw + ": M * M^-1: " + why);
+		else if (!product_is_identity<4>("Matrix4.inverse.scaled", b, a, why)) viol("Matrix4::Inverse:scaled-transform:product-not-identity", mw + ": M^-1 * M: " + why);
+	}
 	// M = R * diag(sx, sy, sz): Matrix3::Invert, and Matrix4::Inverse of [M | t]
 	for (int sx = 0; sx < 3; sx++)
 		for (int sy = 0; sy < 3; sy++)
